@@ -324,6 +324,10 @@ def rule_no_yield_under_mode(db: ProgramDB) -> List[Instance]:
 # ---------------------------------------------------------------------------------- OP-GUARD
 OP_HOOKS = ["__getattr__", "__getitem__", "__call__", "__eq__", "__ne__", "__lt__", "__le__", "__gt__", "__ge__",
             "__contains__"]
+# every other operator hook Python would dispatch to: guarded as well when the class hierarchy defines it
+MORE_OP_HOOKS = ["__and__", "__or__", "__invert__", "__xor__", "__rand__", "__ror__", "__rxor__", "__neg__", "__pos__", "__add__",
+                 "__sub__", "__mul__", "__truediv__", "__floordiv__", "__mod__", "__pow__", "__radd__", "__rsub__", "__rmul__",
+                 "__matmul__", "__lshift__", "__rshift__", "__abs__"]
 
 
 def _reachable_when_mode(db: ProgramDB, fn: FuncInfo, mode_on: bool, depth=0):
@@ -376,10 +380,11 @@ def _returns_normally(db, fn, mode_on, depth) -> bool:
 def rule_op_guard(db: ProgramDB) -> List[Instance]:
     out = []
     cbv = db.cls("CanBehaveLikeAVariable")
-    for h in OP_HOOKS:
-        m = cbv.methods.get(h)
+    for h in OP_HOOKS + MORE_OP_HOOKS:
+        m = cbv.lookup(h)
         if m is None:
-            out.append(inst("OP-GUARD", UNDECIDED, cbv, f"CanBehaveLikeAVariable.{h}", "operator hook not defined"))
+            if h in OP_HOOKS:
+                out.append(inst("OP-GUARD", UNDECIDED, cbv, f"CanBehaveLikeAVariable.{h}", "operator hook not defined"))
             continue
         cfg, reach = _reachable_when_mode(db, m, False)
         rets = [n for n in cfg.nodes if n.kind == "return" and n.id in reach]
